@@ -475,8 +475,13 @@ func chunkUploader(ctx context.Context,
 
 			// iterate over all deduplicated keys from KV and upload the index file
 			// NOTE: we don't compute CRC here.
-			// Keys are marked when scanned over and next instance of the reader will skip those.
 			if err := indexStore.Put(ctx, indexFile, dbReader, storage.NoOverWrite); err != nil {
+				return err
+			}
+
+			// Keys are marked once the chunk is uploaded and the next instance of the reader will skip those.
+			// A failed upload leaves them unmarked, so the retry sends them again.
+			if err := dbReader.MarkUploaded(); err != nil {
 				return err
 			}
 
@@ -1048,6 +1053,7 @@ type dbReader struct {
 	logger    *zap.Logger
 	partial   []byte
 	maxKeys   uint64
+	sent      [][]byte
 }
 
 func newDBReader(ctx context.Context, db kvStore, indexTime time.Time, logger *zap.Logger, maxKeys uint64) *dbReader {
@@ -1151,11 +1157,8 @@ func (r *dbReader) Read(p []byte) (int, error) {
 			b = key
 			b = append(b, '\n') // add newline to separate keys
 
-			// mark key as read in the DB
-			if err := r.db.Set(key, []byte("X")); err != nil {
-				return 0, fmt.Errorf("failed to mark KV key as read: %w", err)
-			}
-
+			// remember the key: it is marked in the DB when the upload has succeeded
+			r.sent = append(r.sent, key)
 			r.count++
 		}
 
@@ -1168,6 +1171,21 @@ func (r *dbReader) Read(p []byte) (int, error) {
 	copy(p, b)
 
 	return len(b), nil
+}
+
+// MarkUploaded marks in the DB all the keys sent by this reader as uploaded.
+func (r *dbReader) MarkUploaded() error {
+	r.mx.Lock()
+	defer r.mx.Unlock()
+
+	for _, key := range r.sent {
+		if err := r.db.Set(key, []byte("X")); err != nil {
+			return fmt.Errorf("failed to mark KV key as read: %w", err)
+		}
+	}
+	r.sent = nil
+
+	return nil
 }
 
 func (r *dbReader) Close() error {
